@@ -133,8 +133,32 @@ def record_read_whole(ctx, chk, rule):
             st = s_.stmt
             if st is not None and st.kind == "select" and getattr(st, "limit", None) is not None and any(x[0] == "param" for x in _walk(st.limit)):
                 hits.append((fi, s_.call, "the series query is cut by a LIMIT bound to a parameter"))
+    # a record fetched in pieces is a defect only if the runs are detected piece by piece: a loop over the pieces whose body
+    # labels runs (get_true_interval_masks) or stores intervals.  Pieces that are put together again before the run
+    # detection are the whole record; if neither shape is found the rule does not decide.
+    piecewise = []
+    producers = {fi.qualname.split(".")[-1] for fi, _c, _t in hits}
+    for q, fi in sorted(m.functions.items()) if (m is not None and hits) else []:
+        for lp in ast.walk(fi.node):
+            if not isinstance(lp, (ast.For, ast.While)):
+                continue
+            head = lp.iter if isinstance(lp, ast.For) else lp.test
+            feeds = any(isinstance(x, ast.Call) and ((isinstance(x.func, ast.Name) and x.func.id in producers) or (isinstance(x.func, ast.Attribute) and x.func.attr in producers | {"fetchmany"}))
+                        for x in ast.walk(head)) or any(isinstance(x, ast.Call) and isinstance(x.func, ast.Attribute) and x.func.attr == "fetchmany" for b in lp.body for x in ast.walk(b))
+            if not feeds:
+                continue
+            labels = any(isinstance(x, ast.Call) and ((isinstance(x.func, ast.Name) and x.func.id == "get_true_interval_masks")
+                                                      or (isinstance(x.func, ast.Attribute) and x.func.attr == "get_true_interval_masks")) for b in lp.body for x in ast.walk(b))
+            stores = any(s_.stmt is not None and s_.stmt.kind == "insert" and s_.stmt.table in ("zeta_interval", "storm", "zeta_interval_storm")
+                         and any(x is s_.call for b in lp.body for x in ast.walk(b)) for s_ in ctx.sites_in(fi))
+            if labels or stores:
+                piecewise.append((fi, lp))
+    if hits and not piecewise:
+        fi, c, txt = hits[0]
+        chk.indeterminate(rule, where_of(fi, c), "%s: %s; whether the runs are detected per piece or on the re-assembled record is not read" % (ast.unparse(c)[:50], txt))
+        hits = []
     for fi, c, txt in hits:
-        chk.ob(rule, False, where_of(fi, c), "%s: %s" % (ast.unparse(c)[:50], txt),
+        chk.ob(rule, False, where_of(fi, c), "%s: %s, and runs are detected inside the loop over the pieces (line %d)" % (ast.unparse(c)[:50], txt, piecewise[0][1].lineno),
                "runs are detected over the whole gap-free record",
                key="classify|record-in-pieces|%s" % fi.qualname, local=True,
                why="an interstorm interval (or storm, or rise) in progress at a piece boundary is recorded as two abutting intervals, or shortened by the sample left alone on one side: recorded intervals are not maximal")
